@@ -201,19 +201,21 @@ func (s *SkipList) Find(key []byte) *entry {
 
 	// Start at the highest level, and work our way down
 	// At each level, move right as far as possible without overshooting
+	var next *node
 	for level := height - 1; level >= 0; level-- {
-		next := current.getNext(level)
+		next = current.getNext(level)
 		for next != nil && next.entry.compare(key) < 0 {
 			current = next
 			next = current.getNext(level)
 		}
-		// When we exit this loop, current.next[level] is either nil or >= key
+		// When we exit this loop, next is either nil or >= key
 	}
 	verifhook.At("sl.find.descended")
 
-	// We're now at level 0 with current just before the potential target
-	// Check next node to see if it's our target key
-	candidate := current.getNext(0)
+	// We're now at level 0 with current just before the potential target.
+	// Use the successor the descent saw: loading current.next[0] a second time
+	// could return a smaller key that a concurrent Insert linked in meanwhile.
+	candidate := next
 	if candidate == nil || candidate.entry.compare(key) != 0 {
 		// Key doesn't exist in the list
 		return nil
@@ -311,18 +313,21 @@ func (it *Iterator) Seek(key []byte) {
 
 	// Start at the highest level, and work our way down
 	// At each level, move right as far as possible without overshooting
+	var next *node
 	for level := height - 1; level >= 0; level-- {
-		next := current.getNext(level)
+		next = current.getNext(level)
 		for next != nil && next.entry.compare(key) < 0 {
 			current = next
 			next = current.getNext(level)
 		}
-		// When we exit this loop, current.next[level] is either nil or >= key
+		// When we exit this loop, next is either nil or >= key
 	}
 	verifhook.At("sl.seek.descended")
 
-	// Move to the next node at level 0, which should be >= target
-	it.current = current.getNext(0)
+	// Move to the node the descent saw at level 0, which is >= target. Loading
+	// current.next[0] a second time could return a smaller key that a
+	// concurrent Insert linked in meanwhile.
+	it.current = next
 
 	// Skip nodes that are not visible in our snapshot
 	for it.current != nil && it.current != it.list.head && !it.isVisible(it.current) {
